@@ -96,6 +96,18 @@ def toomFix (m : Nat) (neg : Bool) (R P1 : List Nat) (t0 t1 e0 e1 e2 e3 e4 e5 : 
     let R := (sub R P1).1                                      -- A + C
     onRange R m (m + 2) (fun l => (add_n l P1).1)              -- B + D
 
+/-- The odd row and diagonal, toom42_mulmid.c:208-232, for odd n: R = {rp, n+1} holds the cells marked E, i.e.
+    MP({ap + 1, 2n-3}, {bp, n-1}); `a0` = the original ap, b = {bp, n}.
+      cy = mpn_addmul_1 (rp, ap - 1, n, bp[n - 1]); ADDC_LIMB (rp[n + 1], rp[n], rp[n], cy);        (first row of O's)
+      mpn_mulmid_basecase (e, ap + n - 1, n - 1, bp, n - 1); mpn_add_n (rp + n - 1, rp + n - 1, e, 3);   (O's on the diagonal)
+    where the C's ap is already advanced by one (ap - 1 = a0, ap + n - 1 = a0 + n). -/
+def toomOdd (a0 b : List Nat) (n : Nat) (R : List Nat) : List Nat :=
+  let am := addmul_1 (R.take n) (a0.take n) (lget b (n - 1))          -- :221
+  let x := addc (lget R n) am.2                                       -- :222
+  let rp := am.1 ++ [x.1, x.2]
+  let e := mulmid_basecase ((a0.drop 1).drop (n - 1)) (n - 1) (b.take (n - 1))   -- :230
+  onRange rp (n - 1) 3 (fun l => (add_n l e).1)                       -- :231
+
 /-- mpn_toom42_mulmid (rp, ap, bp, n, scratch): a = the 2n-1 limbs from ap on (may be longer), b = exactly n limbs.
     `fuel` bounds the recursion (n/2 < n; n is enough); `[]` = outside the C's domain (ASSERT (n >= 4)) or out of fuel. -/
 def toom42 (T : Nat) : Nat → List Nat → List Nat → Nat → List Nat
@@ -125,13 +137,6 @@ def toom42 (T : Nat) : Nat → List Nat → List Nat → Nat → List Nat
     let p0 := rec3 s bhi                                        -- A + B
     let R := p0 ++ p2.drop 2                                    -- p0 overwrites p2[0], p2[1]
     let R := toomFix m neg R p1 t0 t1 e0 e1 e2 e3 e4 e5
-    -- :210-232 odd row and diagonal
-    if n % 2 = 1 then
-      let am := addmul_1 (R.take n) (a0.take n) (lget b (n - 1))        -- :224  ap - 1 = the original ap
-      let x := addc (lget R n) am.2                                     -- :225  ADDC_LIMB (rp[n+1], rp[n], rp[n], cy)
-      let rp := am.1 ++ [x.1, x.2]
-      let e := mulmid_basecase (a.drop (n - 1)) (n - 1) (b.take (n - 1))   -- :233
-      onRange rp (n - 1) 3 (fun l => (add_n l e).1)                     -- :234
-    else R
+    if n % 2 = 1 then toomOdd a0 b n R else R                   -- :208 if (n & 1)
 
 end Mpir.MulMid
